@@ -375,13 +375,37 @@ def cases(draw, maxlen):
     return (sess, draw(c04.histories(maxlen)))
 
 
+def w_undecodable(ctx, wid, seed):
+    """a legacy spend whose scriptSig or scriptPubKey ends in a push that runs past the end of the script has bytes that cannot be listed: such a
+    session is refused at set-up with a diagnostic (it used to start, with the undecodable rest missing from the listing and the marker on another line)"""
+    import random
+    from ..gen import spends
+    rnd = random.Random(seed)
+    for ss, spk in ((b'\x51\x02\xaa', b'\x51'), (b'\x51', b'\x51\x02\xaa'), (b'\x05\xaa', b'\x51\x87'), (b'\x51', b'\x4c'), (b'\x4d\xff', b'\x51'), (b'\x51', b'\x51\x4e\x01\x00')):
+        fund, pos = spends.mk_funding(rnd, spk, 1000)
+        tx, idx, _ = spends.mk_spending(rnd, fund, pos, 1)
+        tx.vin[idx]['script'] = ss
+        argv = ['--tx=' + tx.ser().hex(), '--txin=' + fund.ser().hex()]
+        case = dict(kind='undecodable', scriptsig=ss.hex(), scriptpubkey=spk.hex())
+        ctx.case('undecodable:%s:%s' % (ss.hex(), spk.hex()), True, case, 'undecodable-legacy-script')
+        r = cli.run(cli.binpath('btcdeb'), argv, stdin_tty=True, stdout_tty=True, timeout=20)
+        if r.timed_out:
+            # the interactive prompt came up: a session was started
+            ctx.violations.append(dict(campaign='undecodable', why='a legacy spend with an undecodable scriptSig / scriptPubKey (%s / %s) starts an interactive session: its listing cannot show the bytes that will be executed' % (ss.hex(), spk.hex()),
+                                       case=case, refails=3))
+            return
+        if r.abnormal or r.rc != 1 or b'invalid script' not in r.err:
+            ctx.violations.append(dict(campaign='undecodable', why='a legacy spend with an undecodable script must be refused with a diagnostic: rc=%s err=%r' % (r.rc, r.err[-200:]), case=case, refails=3))
+            return
+
+
 def w_sessions(ctx, wid, seed, examples, maxlen):
     core.hyp_campaign(ctx, 'listing', cases(maxlen), check_session, examples, seed, case_json)
 
 
 def run(tier, t0):
     n, L = (300, 14) if tier == 'quick' else (3000, 40)
-    m = core.parallel(PID, [(w_sessions, dict(examples=n, maxlen=L)) for _ in range(core.WORKERS)])
+    m = core.parallel(PID, [(w_sessions, dict(examples=n, maxlen=L)) for _ in range(core.WORKERS)] + [(w_undecodable, dict())])
     return core.finish(PID, tier, m, RULE, t0, min_nontrivial=150 if tier == 'quick' else 8000,
                        assumptions=['opcode names as Core\'s GetOpName prints them ("0", "-1", "1".."16", OP_*)', 'ground truth for "what executes next" = the same history replayed through the harness (C01/C04 establish that stepping is right)',
                                     'the listing cannot distinguish push encodings of the same bytes and is not asked to'])
